@@ -100,6 +100,29 @@ pub fn socket_type_code(name: &str) -> Option<u8> {
   })
 }
 
+/// The valid ZeroMQ socket pairings (symmetric). Single source of truth for the
+/// ZMTP/3.x READY check, the ZMTP/2.0 greeting check and the inproc handshake.
+pub fn socket_types_compatible(a: &str, b: &str) -> bool {
+  let ok = |x: &str, y: &str| {
+    matches!(
+      (x, y),
+      ("PUSH", "PULL")
+        | ("PUB", "SUB")
+        | ("PUB", "XSUB")
+        | ("XPUB", "SUB")
+        | ("XPUB", "XSUB")
+        | ("REQ", "REP")
+        | ("REQ", "ROUTER")
+        | ("DEALER", "REP")
+        | ("DEALER", "ROUTER")
+        | ("DEALER", "DEALER")
+        | ("ROUTER", "ROUTER")
+        | ("PAIR", "PAIR")
+    )
+  };
+  ok(a, b) || ok(b, a)
+}
+
 /// Maps a ZMTP/2.0 greeting socket-type byte back to its canonical name.
 pub fn socket_type_name_from_code(code: u8) -> Option<&'static str> {
   Some(match code {
